@@ -112,9 +112,13 @@ package execution
 //@       (istype(expr, *parser.StepInvariantExpr) ==> $expr == cast(expr, *parser.StepInvariantExpr).Expr)
 //@   at execution.newOperator #1 assert[C04] aggregation-operand-first: istype(expr, *parser.AggregateExpr) ==> $expr == cast(expr, *parser.AggregateExpr).Expr
 //@   at execution.newOperator #2 assert[C04] aggregation-param-second: istype(expr, *parser.AggregateExpr) ==> $expr == cast(expr, *parser.AggregateExpr).Param
+//@   at engstore.(*SelectorPool).GetSelector assert[C02,C16] select-window-is-the-reference-window: $mint == callres("execution.getTimeRangesForVectorSelector", 1, 0) &&
+//@       $maxt == callres("execution.getTimeRangesForVectorSelector", 1, 1)
 //@   at engstore.(*SelectorPool).GetSelector assert[C02,C16] select-args: $mint == start && $maxt == end && $step == opts.Step.Milliseconds() &&
 //@       sameslice($matchers, e.LabelMatchers) && $hints.Start == start && $hints.End == end && $hints.Step == hints.Step &&
 //@       $hints.Func == hints.Func && $hints.By == hints.By && sameslice($hints.Grouping, hints.Grouping) && $hints.Range == hints.Range
+//@   at engstore.(*SelectorPool).GetFilteredSelector assert[C02,C03,C16] filtered-select-window-is-the-reference-window: $mint == callres("execution.getTimeRangesForVectorSelector", 1, 0) &&
+//@       $maxt == callres("execution.getTimeRangesForVectorSelector", 1, 1)
 //@   at engstore.(*SelectorPool).GetFilteredSelector line "e.LabelMatchers, e.Filters" assert[C02,C09,C16] filtered-select-args: $mint == start && $maxt == end &&
 //@       $step == opts.Step.Milliseconds() && sameslice($matchers, e.LabelMatchers) && sameslice($filters, e.Filters) &&
 //@       $hints.Start == start && $hints.End == end && $hints.Step == hints.Step &&
